@@ -45,7 +45,7 @@ prop = Prop(
     ],
 )
 
-QUICK_PROGRAMS = 36   # 18 generator classes (17 forced features + free mix) x 2
+QUICK_PROGRAMS = 38   # 19 generator classes (18 forced features + free mix) x 2
 THOROUGH_PROGRAMS = 1500
 
 
